@@ -10,6 +10,13 @@ a violation for every seed:
 Before a VIOLATION is reported the event is re-evaluated by Z3 on an independently built term and that value is
 validated by TLC against FP.tla as well: disagreement => MachineryError (SPEC-SUSPECT, exit 2).
 
+Further groups: "cancel" (fpToIEEEBV/fpToFP compositions with a symbolic operand: the cancellation rewrites),
+"mixed" (solved route with one operand kept as a CONSTANT FPV inside the symbolic expression, so that claripy's
+translation of constants to Z3 is exercised: signed zeros, subnormals, inf, NaN; all binary operators x 5 rounding
+modes and the comparisons on index slices of the quick pool) and "sortobj" (float32 events whose FSort objects are
+equal to, but not identical with, claripy.FSORT_FLOAT: FSort("FLOAT", 8, 24) and a pickle round trip; numerals written
+as doubles, RNE/exact operators only).
+
 self-test of the spec:   python -m harness.eng_fp selftest [quick|thorough]
 """
 from __future__ import annotations
@@ -142,6 +149,8 @@ def second_opinion(evs):
             continue
         e2 = W.event_of(c)
         e2["zs"], e2["fold"] = W.z3_ref(c)
+        if c["op"] == "toieee" and e2["zs"] == 0:
+            continue              # to_ieee_bv(NaN from an inner operation): uninterpreted in Z3, nothing to compare
         zev.append(e2)
         ix.append(i)
     bad = C.validate_events(TLA, zev, shard_size=2000, cfg="Empty.cfg", label="so")
